@@ -17,6 +17,11 @@ Line protocol of property C20.
   hypotheses of `screen_refines_latest` / `close_parks_cursor` (texts in the class `TextSafe` for the
   cell-width table `eaWidth`, every update reachable), and otherwise the reference terminal `Scr`
   run on the model's bytes.
+* `termspec <width> <height> <row0> <trim> <history>` – what the PROPERTY promises for that history on a screen
+  of `height` rows, whether or not every update is `Reachable`: `ok rows=<latest text of the lines still in the
+  window> row=<below the last line> vis=1` (`unmodelled` when a text is outside `TextSafe`).  The implementation
+  side is the reference terminal run on the real writer's bytes.  Not generated; the witness of the known finding
+  "terminal shorter than the block of lines" (`known_findings/C20.json`) is such a case.
 * `trim <width> <auto 0|1> <hex text>` – `WriteLineNoWrap` alone:
   `ok <hex out> v=<visible runes> e=<ends inside an escape> c=<cells (eaWidth) of the visible runes>`.
 * `vterm <history>` – `VirtualTerm`: `ok n=<LineCount> closed=<0|1> lines=<hex list> g=<Get(-1)>,<Get(n)>,<Get(0)>` or `panic`.
@@ -106,6 +111,23 @@ def termAnswer (width : Int) (H? : Option Nat) (r0 : Nat) (trim clear hide : Boo
     else s!"ok b={Hex.enc bytes} {spec} MODEL-ON-MACHINE-DIFFERS {machine}"
   else s!"ok b={Hex.enc bytes} {machine}"
 
+def specRowsOut (width : Int) (H r0 : Nat) (trim : Bool) (ws : List (Int × Bytes)) : String :=
+  let ml := (maxLineOf ws).toNat
+  let sf := r0 + ml + 1 - (H - 1)
+  let specRows := (List.range H).map fun (j : Nat) =>
+    if j + sf < r0 then [] else
+    match latest ws ((j + sf - r0 : Nat) : Int) with
+    | some txt => encodeUtf8 (shown width.toNat trim txt)
+    | none => []
+  s!"rows={hexList specRows} row={r0 + ml + 1 - sf} vis=1"
+
+def specAnswer (width : Int) (H r0 : Nat) (trim : Bool) (h : List Item) : String :=
+  let ws := writesOfItems h
+  if !hasClose h && decide (1 ≤ width) && decide (r0 < H) &&
+      (ws.all fun (l, t) => decide (0 ≤ l) && textHyp width trim true t) then
+    s!"ok {specRowsOut width H r0 trim ws}"
+  else "unmodelled hypotheses"
+
 def vtAnswer (width H row0 : Nat) (onlcr : Bool) (bytes : Bytes) : String :=
   let t := ({ Scr.blank width H onlcr eaWidth with row := row0 }).feedBytes bytes
   s!"ok rows={rowsOut t H} row={t.row} col={t.col} vis={b01 t.cursorVisible}"
@@ -114,6 +136,10 @@ def handle0 : List String → String
   | ["vt", w, hh, r0, nl, bs] =>
     match w.toNat?, hh.toNat?, r0.toNat?, bit nl, Hex.dec bs with
     | some width, some H, some row0, some onlcr, some bytes => vtAnswer width H row0 onlcr bytes
+    | _, _, _, _, _ => "bad-args"
+  | ["termspec", w, hh, r0, tr, hs] =>
+    match w.toInt?, hh.toNat?, r0.toNat?, bit tr, parseHist hs with
+    | some width, some H, some row0, some trim, some h => specAnswer width H row0 trim h
     | _, _, _, _, _ => "bad-args"
   | ["size", r, c] =>
     match r.toInt?, c.toInt? with
